@@ -120,7 +120,9 @@ class CumSumSoftPlusTransform(Transform):
     sign = +1
 
     def _call(self, x):
-        return torch.log(x.cumsum(-1).exp() + 1.0)
+        # softplus evaluates log(1 + exp(c)) accurately for very negative c
+        # (log(exp(c) + 1.0) loses log1p's precision and is exactly 0 below -37)
+        return softplus(x.cumsum(-1))
 
     def _inverse(self, y):
         # y_i = softplus(c_i) with c = x.cumsum(-1): c_i = log(exp(y_i) - 1)
